@@ -71,3 +71,31 @@ Proof.
   specialize (H HT). cbv zeta in H. fold ids in H. rewrite Hd, Hb in H. exact H.
 Qed.
 Print Assumptions columns_roundtrip.
+
+(* the same enumeration for any decidable statement about the column ids *)
+Definition all_sat (P : nat -> nat -> option nat -> option nat -> bool) : bool :=
+  forallb (fun e => forallb (fun n => forallb (fun u => forallb (fun t =>
+    let ids := [e; n] ++ (match u with Some x => [x] | None => [] end) ++ (match t with Some x => [x] | None => [] end) in
+    let k := length ids in
+    if distinct ids && forallb (fun x => x <? k) ids then P e n u t else true)
+    (opts 4)) (opts 4)) range4) range4.
+
+Theorem columns_sat P : all_sat P = true -> forall idE idN idU idT,
+  let ids := [idE; idN] ++ (match idU with Some x => [x] | None => [] end) ++ (match idT with Some x => [x] | None => [] end) in
+  distinct ids = true -> forallb (fun x => x <? length ids) ids = true ->
+  P idE idN idU idT = true.
+Proof.
+  intros H idE idN idU idT ids Hd Hb. unfold all_sat in H.
+  assert (Hlt : forall x, In x ids -> x < 4).
+  { intros x Hx. rewrite forallb_forall in Hb. specialize (Hb x Hx). apply Nat.ltb_lt in Hb.
+    assert (length ids <= 4) by (unfold ids; destruct idU, idT; cbn; lia). lia. }
+  rewrite forallb_forall in H. specialize (H idE (in_range4 _ (Hlt idE ltac:(left; reflexivity)))).
+  rewrite forallb_forall in H. specialize (H idN (in_range4 _ (Hlt idN ltac:(right; left; reflexivity)))).
+  rewrite forallb_forall in H. specialize (H idU).
+  assert (HU : In idU (opts 4)).
+  { apply in_opts. destruct idU as [u|]; [|exact I]. apply Hlt. unfold ids. cbn. auto. }
+  specialize (H HU). rewrite forallb_forall in H. specialize (H idT).
+  assert (HT : In idT (opts 4)).
+  { apply in_opts. destruct idT as [t|]; [|exact I]. apply Hlt. unfold ids. destruct idU; cbn; auto. }
+  specialize (H HT). cbv zeta in H. fold ids in H. rewrite Hd, Hb in H. exact H.
+Qed.
